@@ -121,6 +121,13 @@ Lemma chunks_full (k : nat) (l : list A) :
   1 <= k -> Forall (fun c => length c = k) (removelast (chunks k l)).
 Proof. intros Hk. unfold chunks. apply chunks_fuel_full; [exact Hk|apply le_n]. Qed.
 
+(* a chunk size that covers the batch: one call on the whole batch *)
+Lemma chunks_single (k : nat) (l : list A) : length l <= k -> chunks k l = [l].
+Proof.
+  intros H. unfold chunks. destruct (length l) eqn:E; cbn [chunks_fuel]; [reflexivity|].
+  rewrite E. destruct (Nat.leb_spec (S n) k); [reflexivity|lia].
+Qed.
+
 (* the number of chunks (= calls of the function) is exactly ceil(len / k) *)
 Lemma chunks_fuel_count (fuel k : nat) (l : list A) :
   1 <= k -> length l <= fuel -> l <> [] ->
